@@ -289,7 +289,11 @@ func runServerHs(c *hsCase) (obs hsObs) {
 			out = c.Auths[ai]
 		}
 		ai++
-		log.add(map[string]interface{}{"e": "auth", "name": id.Name, "domain": id.Domain, "cred": fromAuth(a), "enc": string(st.Encryption()), "out": out})
+		var outLog interface{} = out
+		if out == "unknown0" {
+			outLog = "unknown" // an empty role without a round trip is the same outcome class
+		}
+		log.add(map[string]interface{}{"e": "auth", "name": id.Name, "domain": id.Domain, "cred": fromAuth(a), "enc": string(st.Encryption()), "out": outLog})
 		switch o := out.(type) {
 		case string:
 			switch o {
@@ -297,6 +301,8 @@ func runServerHs(c *hsCase) (obs hsObs) {
 				return lime.MemberAuthenticationResult(), nil
 			case "unknown":
 				return lime.UnknownAuthenticationResult(), nil
+			case "unknown0":
+				return &lime.AuthenticationResult{}, nil // empty role, no round trip
 			}
 			return nil, errCallback
 		case map[string]interface{}:
